@@ -86,7 +86,7 @@ def run_config(prog, node, cfg, envs_refs):
     from nutils import evaluable, parallel
     import contextlib
     ctx = parallel.maxprocs(cfg['maxprocs']) if cfg['maxprocs'] > 1 else contextlib.nullcontext()
-    with ctx:
+    with (core.fork_token() if cfg['maxprocs'] > 1 else contextlib.nullcontext()), ctx:
         try:
             f = evaluable.compile(node, _simplify=cfg['simplify'], _optimize=cfg['optimize'], cache_const_intermediates=cfg['cache'], stats=cfg['stats'])
         except Exception as e:
